@@ -1,10 +1,10 @@
 ---- MODULE T_Ecc ----
 (* Trace validation of fault-enumeration records taken from the REAL LiteDRAMNativePortECC netlist (C15).
-   Line 1 (cfg): [k, lanes, wto, needS, allLanes, plo, phi].  Events: RD / WE records (see R_Ecc), LOST (the memory
+   Line 1 (cfg): [k, lanes, wto, needS, slo, shi, allLanes, plo, phi].  Events: RD / WE records (see R_Ecc), LOST (the memory
    strobed write data that the port did not present), END.
    Cover condition (so that "exhaustive" is measured by TLC, not asserted by the harness): cov collects <<lane, F>> of
    every ISOLATED case (exactly one lane with flips).  At the end:
-     needS  -> every single position of every lane was seen in isolation;
+     needS  -> every single position of every lane in slo..shi was seen in isolation;
      plo..phi non-empty -> every pair of Pairs(CodeBits(k), plo, phi) was seen in isolation on some lane
                            (on every lane when allLanes). *)
 EXTENDS TraceLib, R_Ecc
@@ -43,7 +43,7 @@ TNext == /\ l <= NLines
               [] OTHER -> envbad' = envbad \cup {<<l, "unknown event">>} /\ UNCHANGED <<unc, cov, cnt, bad>>
 TSpec == TInit /\ [][TNext]_vars
 Lanes0 == 0..(Cfg.lanes - 1)
-CoverS == ~Cfg.needS \/ \A ln \in Lanes0 : \A p \in 0..(N1 - 1) : <<ln, {p}>> \in cov
+CoverS == ~Cfg.needS \/ \A ln \in Cfg.slo..Cfg.shi : \A p \in 0..(N1 - 1) : <<ln, {p}>> \in cov
 CoverP == \A F \in Pairs(N1, Cfg.plo, Cfg.phi) :
              IF Cfg.allLanes THEN \A ln \in Lanes0 : <<ln, F>> \in cov ELSE \E ln \in Lanes0 : <<ln, F>> \in cov
 AtEnd == (l = NLines + 1) =>
